@@ -66,3 +66,8 @@ Proof. vm_compute. reflexivity. Qed.
    taken while it may already be held (in any mode), and the order "held before acquired" has no cycle *)
 Lemma lock_order_ok : acq_table_ok lock_ranks acquisitions = true.
 Proof. vm_compute. reflexivity. Qed.
+
+(* no entry point of the library (exported function / method, function used as a value) may return to its caller while a
+   mutex it took is still held: every return path unlocks, or the unlock is deferred *)
+Lemma no_lock_leak_ok : no_lock_leak lock_exits = true.
+Proof. vm_compute. reflexivity. Qed.
